@@ -689,12 +689,40 @@ def gen_case(seed, shard, i):
 def run_case(rec, c, only=None):
     if only in (None, "values"):
         check_values(rec, c["values"])
+        check_history(rec, c)
     if only in (None, "reject"):
         check_rejects(rec, c["reject"])
     if only in (None, "minimiser"):
         check_minimiser(rec, c["minimiser"])
     if only in (None, "rel"):
         check_rel(rec, c["rel"])
+
+
+def check_history(rec, c):
+    """Call histories on caller-owned buffers (see vt/monitors/history.py)."""
+    from typhon.retrieval import scores
+    from vt.monitors import history
+    v = c["values"]
+    y_test = np.asarray(v["y_test"], dtype=float)
+    taus = np.asarray(v["taus"], dtype=float)
+    n, k = len(y_test), len(taus)
+    y_tau = np.asarray(v["y_tau"], dtype=float).reshape(n, k)
+    r = c["rel"]
+    yt = np.asarray(r["y_test"], dtype=float)
+    yp = yt * 1.1 if r["mode"] != "free" else np.asarray(r["y_pred"], dtype=float)
+    for name, fn, args in (("quantile_score", scores.quantile_score, (y_tau, y_test, taus)),
+                           ("mean_quantile_score", scores.mean_quantile_score, (y_tau, y_test, taus)),
+                           ("mape", scores.mape, (yp, yt)), ("bias", scores.bias, (yp, yt))):
+        rec.ev()
+        # taus stay as they are (a reversed tau vector with a reversed y_tau is another valid input, but
+        # reversing rows only keeps the case simple): pass taus as a tuple so that it is not updated
+        a = tuple(x if i != 2 else tuple(x.tolist()) for i, x in enumerate(args))
+        verdict, detail = history.reuse_check(fn, a)
+        rec.count("history.reuse_" + verdict.replace("/", ""))
+        if verdict == "stale":
+            rec.violation("stale-state", {"sub": "regen", "seed": c.get("seed"), "shard": c.get("shard"),
+                                          "i": c.get("i"), "only": "values"},
+                          dict(detail, function=name))
 
 
 FIXED = [
